@@ -141,8 +141,8 @@ def check():
 
     # Folder::contains and Folder::module agree (the contract used above)
     try:
-        f_c = ML.one(r"lsp::<impl at oal-client/src/lsp/mod\.rs:3[0-9][^>]*>::contains$")
-        f_m = ML.one(r"lsp::<impl at oal-client/src/lsp/mod\.rs:3[0-9][^>]*>::module$")
+        f_c = ML.sel("lsp", "contains", arg0=r"&lsp::Folder|&Folder")
+        f_m = ML.sel("lsp", "module", arg0=r"&lsp::Folder|&Folder")
         exc = mirlib.executor([ML])
         rc = [p for p in exc.run(f_c, arg_names=["self", "loc"]) if p.kind == "return"]
         rm = [p for p in mirlib.executor([ML]).run(f_m, arg_names=["self", "loc"]) if p.kind == "return"]
